@@ -252,12 +252,12 @@ func c14Sorted(rc *RuleCtx) {
 		cons := "avfs.glob names sorted"
 		ok := false
 		eachCall(f, func(ci ssa.CallInstruction) {
-			if fn := calleeFunc(ci); fn != nil && isPkgFunc(fn, "sort", "Strings") {
+			if fn := calleeFunc(ci); fn != nil && (isPkgFunc(fn, "sort", "Strings") || isPkgFunc(fn, "slices", "Sort")) {
 				ok = true
 			}
 		})
 		if ok {
-			rc.good(cons, f.Pos(), "sort.Strings on the directory's names before matching")
+			rc.good(cons, f.Pos(), "sort.Strings / slices.Sort on the directory's names before matching")
 		} else {
 			rc.bad(cons, f.Pos(), "glob does not sort the names of the directory: matches are not returned in lexical order")
 		}
